@@ -6,7 +6,9 @@
 //!   rlv replay <ID> <file> [--strict]
 
 mod crash;
+mod deepq;
 mod driver;
+mod fuzzrun;
 mod images;
 mod model;
 mod ops;
